@@ -117,6 +117,11 @@ def gen_cases(tier, seed):
                     cases.append({'stage': stage, 'mode': mode,
                                   'point': point, 'worker': wk,
                                   'seed': 1000 + seed})
+                    if tier == 'thorough':
+                        # the same fault on a second set of inputs
+                        cases.append({'stage': stage, 'mode': mode,
+                                      'point': point, 'worker': wk,
+                                      'seed': 2000 + seed})
     return cases
 
 
